@@ -382,6 +382,19 @@ impl World {
             if self.bufs.iter().any(|h| h.is_some()) {
                 self.fail("the pool was unregistered and freed while a ReadBuf of it is alive".into());
             }
+            // The kernel keeps selecting (and writing into) buffers of the group for as long as a
+            // request naming the group is in flight: the last handle (held by the operation, also
+            // after its future or stream was dropped) must outlive the request's final completion.
+            let flying: Vec<i32> = simk::with_fd(g.ring_fd, |s| {
+                s.inflight.iter().filter(|q| q.sqe.flags & abi::SQE_BUFFER_SELECT != 0 && q.sqe.buf_index == g.bgid).map(|q| q.sqe.fd).collect()
+            })
+            .unwrap_or_default();
+            if let Some(fd) = flying.first() {
+                self.fail(format!(
+                    "the pool was unregistered and its memory freed while the kernel still has operation {} in flight with buffer selection from it (no final completion yet): the kernel can still write into the freed buffers",
+                    fd - fake_fd(0)
+                ));
+            }
             return;
         }
         let avail = simk::with_fd(g.ring_fd, |s| s.pbuf_available(g.bgid)).unwrap_or_default();
@@ -1008,6 +1021,24 @@ pub fn one_case(idx: usize, long_every: usize, r: &mut Rng, silent: &Arc<Mutex<O
         }
         tags.push("corpus:h26".into());
     }
+    if !long && !corpus_h26 && idx % 20 == 3 {
+        // The operation holds the last handle of the pool: the user's handle is dropped while a
+        // multishot read/recv is running, then the stream is dropped (its cancellation is only
+        // queued) and the kernel selects once more before the cancellation lands. The pool has to
+        // stay registered and allocated until the request's final completion (C01: pool buffers).
+        let kind = if r.chance(1, 2) { Kind::MultiRead } else { Kind::MultiRecv };
+        let mut evs = vec![Bev::Start(0, kind, r.chance(1, 2))];
+        if r.chance(1, 2) {
+            evs.extend([Bev::KPick(0, r.range(1, gsize as u64) as u32), Bev::Deliver(0, 0), Bev::DropBuf(0)]);
+        }
+        evs.extend([Bev::PoolDrop, Bev::DropOp(0), Bev::KPick(0, r.range(1, gsize as u64) as u32), Bev::RingPoll]);
+        for e in evs {
+            if w.oracle.is_none() {
+                rec.step(&mut w, e);
+            }
+        }
+        tags.push("scripted:last-handle-held-by-abandoned-multishot".into());
+    }
     if long {
         // More than 2^16 releases on a pool of two: the ring tail (starting at 2) wraps.
         let rounds = 70_000 + r.below(2_000);
@@ -1032,7 +1063,9 @@ pub fn one_case(idx: usize, long_every: usize, r: &mut Rng, silent: &Arc<Mutex<O
     let allow_abandon = r.chance(1, 3);
     let want_threads = n >= 2 && r.chance(2, 5);
     let thread_at = r.below(n_events as u64) as usize;
-    let pool_drop_at = if r.chance(1, 5) { Some(n_events * 2 / 3 + r.below(n_events as u64 / 3 + 1) as usize) } else { None };
+    let pool_drop_at = if r.chance(1, 4) { Some(n_events / 2 + r.below(n_events as u64 / 2 + 1) as usize) } else { None };
+    // With the user's handle gone an operation holds the last one: abandon operations more often then.
+    let allow_abandon = allow_abandon || (pool_drop_at.is_some() && r.chance(2, 3));
     for step in 0..n_events {
         if w.oracle.is_some() || !w.registered() {
             break;
